@@ -17,6 +17,10 @@ structure Conn where
   /-- only the unregistration requests of the connection are held -/
   heldUnreg : Bool := false
   deferred : List Deferred := []
+  /-- registrations for the signal made by hand on this connection (one user of the server's table each:
+      `Signals.recipients` lists the connection once per user), and the events sent for them so far -/
+  raw : Nat := 0
+  rawWire : Nat := 0
 
 structure St where
   conns : List Conn := []
@@ -153,7 +157,8 @@ def run (st : St) (args : List String) : St × String :=
     | none => (st, "bad-op")
   | ["sg.emit", p] =>
     let conns := st.conns.map (fun k =>
-      { k with c := drain (emit k.c p.toNat!), o := drain (if k.c.registered then noise k.o else k.o) })
+      { k with c := drain (emit k.c p.toNat!), o := drain (if k.c.registered then noise k.o else k.o),
+               rawWire := k.rawWire + k.raw })
     ({ st with conns := conns }, "ok")
   | ["sg.oemit", p] =>
     ({ st with conns := st.conns.map (fun k => otherOp k (fun o => emit o p.toNat!)) }, "ok")
@@ -203,6 +208,14 @@ def run (st : St) (args : List String) : St × String :=
     match st.conns[k.toNat!]? with
     | some c => (setConn st k.toNat! { c with c := drain (noise c.c) }, "ok")
     | none => (st, "bad-op")
+  | ["sg.rawreg", k] =>
+    match st.conns[k.toNat!]? with
+    | some c => (setConn st k.toNat! { c with c := drain (noise c.c), raw := c.raw + 1 }, "ok")
+    | none => (st, "bad-op")
+  | ["sg.rawunreg", k] =>
+    match st.conns[k.toNat!]? with
+    | some c => if c.raw == 0 then (st, "bad-op") else (setConn st k.toNat! { c with c := drain (noise c.c), raw := c.raw - 1 }, "ok")
+    | none => (st, "bad-op")
   | ["sg.unother", k] =>
     -- that registration is given up: again other traffic; the entries of the signal itself stay (remove_keeps_others)
     match st.conns[k.toNat!]? with
@@ -211,7 +224,7 @@ def run (st : St) (args : List String) : St × String :=
   | ["sg.wire", k] =>
     -- the events of the signal the server has put on the connection: one per emission while registered
     match st.conns[k.toNat!]? with
-    | some c => (st, toString (c.c.log.filter (fun f => match f with | .event _ _ => true | _ => false)).length)
+    | some c => (st, toString ((c.c.log.filter (fun f => match f with | .event _ _ => true | _ => false)).length + c.rawWire))
     | none => (st, "bad-op")
   | ["sg.got", g] => (st, gotStr st g.toNat!)
   | "sg.emitrace" :: _ =>
